@@ -183,3 +183,12 @@ SUBCHECKS = [
     Sub("floats", "hyp", float_body, strategy=float_case, quick=600, thorough=16000,
         clause="same on float arrays with ulp-adjacent, midpoint and out-of-range queries"),
 ]
+
+TECHNIQUE = ("exhaustive enumeration of a finite lattice (itertools, 16 processes) + Hypothesis-generated float "
+             "arrays, both against a brute-force reference model of the three searches")
+LEVEL_TEXT = ("Complete enumeration of all arrays/queries on a small integer/half-integer lattice (every branch and "
+              "boundary of the three two-pointer scans is reached there, since the scans only compare values) plus "
+              "randomized float inputs with ulp-adjacent and midpoint queries; exact comparison with a brute-force "
+              "definition. Exploration, not proof: arrays longer than 6 elements are only sampled.")
+LEVEL_NOTE = ("trusts the brute-force oracle in twv/oracles.py (a dozen lines, exact rational distance comparison); "
+              "inputs restricted to strictly increasing arrays and sorted non-empty query lists")
